@@ -33,6 +33,7 @@ edition = "2021"
 
 [dependencies]
 nodejs-semver = { path = "../crate" }
+miette = "7.4"
 
 [profile.dev]
 opt-level = 1
